@@ -333,10 +333,10 @@ func ReqFields(n int, extra string, more ...hpack.HeaderField) []hpack.HeaderFie
 	}, more...)
 }
 
-func ResFields(extra string) []hpack.HeaderField {
+func ResFields(extra, contentType string) []hpack.HeaderField {
 	return []hpack.HeaderField{
 		{Name: ":status", Value: "200"},
-		{Name: "content-type", Value: "application/octet-stream"},
+		{Name: "content-type", Value: contentType},
 		{Name: "x-c10", Value: extra},
 	}
 }
